@@ -150,6 +150,8 @@ def case_tags(case):
         C = X[cs] if len(cs) else X[:0]
     if len(C) and len(np.unique(C, axis=0)) < len(C):
         tags.add("dup_candidate_rows")
+    if case.get("cmode") == "feat" and np.all(np.isnan(np.asarray(case["y"], dtype=float))):
+        tags.add("cold_start_feature_rows")
     return tags
 
 
